@@ -29,6 +29,7 @@ static const op_t ALPHA[] = {
 #define NALPHA ((int)(sizeof(ALPHA) / sizeof(ALPHA[0])))
 
 static vh_rng_t rng;
+static int quiet;	/* execute without logging (prefix of a full-length exhaustive sequence: judged already as a shorter sequence) */
 static long cur_seq;
 static int cur_target;
 static unsigned long n_ops;
@@ -53,12 +54,15 @@ static jwt_value_error_t jcs(void *o, jwt_value_t *v) { return jwt_claim_set(o, 
 static jwt_value_error_t jcg(void *o, jwt_value_t *v) { return jwt_claim_get(o, v); }
 static jwt_value_error_t jcd(void *o, const char *n) { return jwt_claim_del(o, n); }
 
+static char *last_snap;	/* previous snapshot of this sequence: an unchanged object is logged as 1 */
 static void snapshot(const tgt_t *t)
 {
 	jwt_value_t v;
 	jwt_set_GET_JSON(&v, NULL);
-	if (t->get(t->obj, &v) == JWT_VALUE_ERR_NONE && v.json_val) { vh_put_jstr(stdout, v.json_val); free(v.json_val); }
-	else fputs("null", stdout);
+	if (t->get(t->obj, &v) == JWT_VALUE_ERR_NONE && v.json_val) {
+		if (last_snap && !strcmp(last_snap, v.json_val)) { fputs("1", stdout); free(v.json_val); }
+		else { vh_put_jstr(stdout, v.json_val); free(last_snap); last_snap = v.json_val; }
+	} else { fputs("null", stdout); free(last_snap); last_snap = NULL; }
 }
 
 static void do_op(const tgt_t *t, const op_t *op)
@@ -66,6 +70,29 @@ static void do_op(const tgt_t *t, const op_t *op)
 	jwt_value_t v;
 	jwt_value_error_t rc;
 	n_ops++;
+	if (quiet) {
+		memset(&v, 0, sizeof(v));
+		if (op->kind == 'S') {
+			switch (op->type) {
+			case I: jwt_set_SET_INT(&v, op->name, op->ival); break;
+			case S: jwt_set_SET_STR(&v, op->name, op->sval); break;
+			case B: jwt_set_SET_BOOL(&v, op->name, (int)op->ival); break;
+			default: jwt_set_SET_JSON(&v, op->name, (char *)op->sval); break;
+			}
+			v.replace = op->replace;
+			t->set(t->obj, &v);
+		} else if (op->kind == 'G') {
+			switch (op->type) {
+			case I: jwt_set_GET_INT(&v, op->name); break;
+			case S: jwt_set_GET_STR(&v, op->name); break;
+			case B: jwt_set_GET_BOOL(&v, op->name); break;
+			default: jwt_set_GET_JSON(&v, op->name); v.pretty = op->pretty; break;
+			}
+			if (t->get(t->obj, &v) == JWT_VALUE_ERR_NONE && op->type == J && v.json_val) free(v.json_val);
+		} else
+			t->del(t->obj, op->name);
+		return;
+	}
 	printf("[\"O\",%ld,%d,\"%c\",%d,", cur_seq, cur_target, op->kind, op->type);
 	vh_put_jstr(stdout, op->name);
 	printf(",");
@@ -127,7 +154,7 @@ static void random_op(op_t *op)
 		op->type = 1 + (int)vh_below(&rng, 4);
 		switch (op->type) {
 		case I: op->ival = vh_below(&rng, 2) ? INTS[vh_below(&rng, 7)] : (long)vh_rand(&rng); break;
-		case S: op->sval = STRS[vh_below(&rng, 8)]; break;
+		case S: op->sval = STRS[vh_below(&rng, 7)]; if (vh_below(&rng, 64) == 0) op->sval = bigstr; break;
 		case B: { static const long BV[] = { 0, 1, 0, 1, 2, -1, 256, 65536, INT32_MIN }; op->ival = BV[vh_below(&rng, 9)]; } break;
 		default: op->sval = JS[vh_below(&rng, 22)]; break;
 		}
@@ -143,10 +170,14 @@ static int seq_len;
 static const op_t *seq_ops;
 static op_t rnd_ops[64];
 
+static int quiet_prefix;	/* number of leading ops to run unlogged */
 static void run_on(tgt_t *t)
 {
-	for (int i = 0; i < seq_len; i++)
+	for (int i = 0; i < seq_len; i++) {
+		quiet = i < quiet_prefix;
 		do_op(t, &seq_ops[i]);
+	}
+	quiet = 0;
 }
 
 static int cb_run(jwt_t *jwt, jwt_config_t *cfg)
@@ -165,6 +196,7 @@ static void run_seq(long seq, int target, const op_t *ops, int n)
 	tgt_t t;
 	cur_seq = seq; cur_target = target; seq_ops = ops; seq_len = n;
 	printf("[\"N\",%ld,%d]\n", seq, target);
+	free(last_snap); last_snap = NULL;
 	if (target <= 3) {
 		jwt_builder_t *b = jwt_builder_new();
 		if (!b) vh_harness_fail("builder_new");
@@ -204,6 +236,16 @@ int main(int argc, char **argv)
 	vh_parse_args(argc, argv, &a);
 	memset(bigstr, 'L', 65536); bigstr[65536] = 0;
 	if (a.shard == 0 && a.start == 0) printf("[\"ALPHA\",%d]\n", NALPHA);
+	/* the alphabet itself, so that the monitor can replay unlogged prefixes: ["A", index, kind, type, name, value, replace] */
+	for (int i = 0; i < NALPHA; i++) {
+		const op_t *op = &ALPHA[i];
+		printf("[\"A\",%d,\"%c\",%d,", i, op->kind, op->type);
+		vh_put_jstr(stdout, op->name); printf(",");
+		if (op->kind == 'S' && (op->type == I || op->type == B)) printf("%ld", op->ival);
+		else if (op->kind == 'S') vh_put_jstr(stdout, op->sval);
+		else printf("null");
+		printf(",%d]\n", op->replace);
+	}
 	if (!strcmp(a.mode, "exh")) {
 		int L = (int)a.n;
 		long total = 1, seq = 0;
@@ -219,7 +261,17 @@ int main(int argc, char **argv)
 				vh_case_begin(seq, "\"mode\":\"exh\",\"len\":%d,\"v\":%ld", len, v);
 				/* full-length sequences on builder claims; shorter ones on every target */
 				if (len < L || L <= 2) { for (int tg = 0; tg < 6; tg++) run_seq(seq, tg, ops, len); }
-				else run_seq(seq, (int)(v % 2), ops, len);
+				else {
+					/* full length: the first len-1 operations were judged as a sequence of their own; they are executed unlogged
+					 * and the monitor replays them from the alphabet (["Q", seq, target, [indexes]]) */
+					long t2 = v;
+					printf("[\"Q\",%ld,%d,[", seq, (int)(v % 2));
+					for (int i = 0; i < len - 1; i++) { printf("%s%ld", i ? "," : "", t2 % NALPHA); t2 /= NALPHA; }
+					printf("]]\n");
+					quiet_prefix = len - 1;
+					run_seq(seq, (int)(v % 2), ops, len);
+					quiet_prefix = 0;
+				}
 			}
 		}
 		(void)total;
